@@ -379,6 +379,44 @@ def run_sync(seed, res):
                 if exc is None or mod.sent:
                     res.violation("C18/daliserver/unsupported-length-not-refused", f"{c}: a {len(f)}-bit frame was sent as {[x.hex() for x in mod.sent]}; "
                                   "daliserver messages carry 16-bit frames only", wit)
+        # one connection for many commands: every reply packet is decoded as the answer of the request it replies to (the
+        # server replies to each message, also to both messages of a send-twice command)
+        sixteen = [c for c in cmds if len(c.frame) == 16]
+        for t in range(12):
+            def reply(data):
+                h = (data[2] * 131 + data[3] * 7 + 3) % 256
+                st = (0, 1, 1, 1, 255)[h % 5]
+                return bytes([2, st, h if st == 1 else 0, 0])
+            mod = FakeSocketModule(reply)
+            D.socket = mod
+            batch = [r.choice(sixteen) for _ in range(r.randint(2, 12))]
+            with D.DaliServer(multiple_frames_per_connection=True) as ds:
+                for k, c in enumerate(batch):
+                    res.evaluations += 1
+                    res.hit("daliserver_session_replies")
+                    wit = {"driver": "daliserver", "session": [str(x) for x in batch[:k + 1]]}
+                    try:
+                        got = ds.send(c)
+                    except Exception as e:
+                        res.violation(f"C18/daliserver/session-raised/{type(e).__name__}", f"{c} as command {k} of a session raised "
+                                      f"{type(e).__name__}: {e}", wit)
+                        break
+                    rep = reply(bytes([2, 0]) + c.frame.pack)
+                    if c.response is None:
+                        ok = got is None
+                        want = "nothing (the command expects no answer)"
+                    elif rep[1] == 0:
+                        ok, want = got is not None and got.raw_value is None, "no answer"
+                    elif rep[1] == 1:
+                        ok = got is not None and got.raw_value is not None and not got.raw_value.error and got.raw_value.as_integer == rep[2]
+                        want = f"backward frame {rep[2]:#04x}"
+                    else:
+                        ok, want = got is not None and got.raw_value is not None and got.raw_value.error, "framing error"
+                    if not ok:
+                        res.violation("C18/daliserver/session-reply-decoded", f"{c} as command {k} of a session (before it: "
+                                      f"{[str(x) for x in batch[max(0, k - 2):k]]}): the server's reply {rep.hex()} denotes {want}, "
+                                      f"send() returned {got!r}", wit)
+                        break
         for nbits in (8, 12, 17, 20, 25, 32):
             mod = FakeSocketModule(lambda data: bytes([2, 0, 0, 0]))
             D.socket = mod
@@ -658,6 +696,89 @@ def run_legacy(seed, res):
                         res.violation("C18/unipi/receive-register", f"bus {bus_no}: reply polled at registers {sorted(set(drv.backend.reads))}, "
                                       f"the map prescribes {1 + 3 * bus_no} (and {38 + bus_no // 2} for COMPARE collisions)",
                                       {"driver": "unipi", "bus": bus_no})
+        finally:
+            U.RemoteArm, U.sleep = orig_arm, orig_sleep
+        # receive side against a model of the firmware's registers: a 16-bit reception counter that wraps, the last received
+        # frame next to it (0x100 = backward frame, 0x200 = a forward frame of another master), a framing-error counter
+        class ArmModel:
+            def __init__(self, bus_no, cnt, fe):
+                self.recv, self.send_reg, self.fereg = 1 + 3 * bus_no, 13 + 2 * bus_no, 38 + bus_no // 2
+                self.cnt, self.regs, self.fe = cnt, (0, 0), fe
+                self.plan, self.pending, self.writes = [], [], 0
+
+            def write_regs(self, reg, values):
+                if reg == self.send_reg:
+                    self.writes += 1
+                    self.pending = [list(e) for e in self.plan]      # what the bus does after this transmission
+
+            def read_regs(self, reg, n):
+                if reg == self.recv:
+                    return (self.cnt, self.regs[0], self.regs[1])[:n]
+                if reg == self.fereg:
+                    return (self.fe,)
+                return tuple([0] * n)
+
+            def tick(self, _t=None):
+                for e in self.pending:
+                    e[0] -= 1
+                    if e[0] == 0:
+                        if e[1] == "fe":
+                            self.fe = (self.fe + 1) & 0xFFFF
+                        else:
+                            self.cnt = (self.cnt + 1) & 0xFFFF
+                            self.regs = (0x100, e[2]) if e[1] == "answer" else (0x200, e[2])
+        orig_arm, orig_sleep = U.RemoteArm, U.sleep
+        try:
+            import dali.gear.general as gg_
+            from dali import address as A_
+            ru = rng(seed, "C18", "unipi-answers")
+            for t in range(400):
+                bus_no = ru.randrange(4)
+                cnt0 = ru.choice([0, 1, 0xFFFF, 0xFFFE, 0x7FFF, 0x8000, 0x00FF, 0x0100, ru.getrandbits(16)])
+                model = ArmModel(bus_no, cnt0, ru.choice([0, 0xFFFF, ru.getrandbits(16)]))
+                U.RemoteArm, U.sleep = (lambda *a, **kw: model), model.tick
+                drv = U.SyncUnipiDALIDriver(bus=bus_no)
+                kind = ru.choice(["answer", "answer", "answer", "silent", "late", "foreign-then-answer", "compare-collision", "plain"])
+                val = ru.choice([0, 1, 0xFF, 0xFE, ru.getrandbits(8)])
+                delay = ru.randint(1, 6)
+                if kind == "plain":
+                    c = gg_.DAPC(A_.GearShort(ru.randrange(64)), ru.randrange(255))
+                elif kind == "compare-collision":
+                    c = gg_.Compare()
+                    model.plan = [(delay, "fe", None)]
+                else:
+                    c = ru.choice([gg_.QueryStatus, gg_.QueryActualLevel, gg_.QueryGroupsZeroToSeven])(A_.GearShort(ru.randrange(64)))
+                    if kind == "answer":
+                        model.plan = [(delay, "answer", val)]
+                    elif kind == "late":
+                        model.plan = [(ru.randint(8, 20), "answer", val)]
+                    elif kind == "foreign-then-answer" and delay > 1:
+                        model.plan = [(ru.randint(1, delay - 1), "foreign", ru.getrandbits(16)), (delay, "answer", val)]
+                    elif kind == "foreign-then-answer":
+                        model.plan = [(delay, "answer", val)]
+                res.evaluations += 1
+                res.hit("unipi_answers_checked")
+                wit = {"driver": "unipi", "bus": bus_no, "command": str(c), "reception_counter_before": cnt0, "bus_events": model.plan}
+                try:
+                    got = drv.send(c)
+                except Exception as e:
+                    res.violation(f"C18/unipi/send-raised/{type(e).__name__}", f"send({c}) raised {type(e).__name__}: {e}", wit)
+                    continue
+                if kind == "plain":
+                    ok = got is None or got is getattr(U, "DALI_NO_RESPONSE", None) or getattr(got, "raw_value", 0) is None
+                    want = "no answer"
+                elif kind in ("silent", "late"):
+                    ok = got is not None and got.raw_value is None
+                    want = "no answer"
+                elif kind == "compare-collision":
+                    ok = got is not None and got.raw_value is not None and got.value is True
+                    want = "YES (colliding answers)"
+                else:
+                    ok = got is not None and got.raw_value is not None and not got.raw_value.error and got.raw_value.as_integer == val
+                    want = f"backward frame {val:#04x}"
+                if not ok:
+                    res.violation("C18/unipi/answer-decoded", f"{c} with the reception counter at {cnt0:#06x} and bus events {model.plan}: "
+                                  f"send() returned {got!r} ({getattr(got, 'raw_value', None)!r}), the registers denote {want}", wit)
         finally:
             U.RemoteArm, U.sleep = orig_arm, orig_sleep
         res.hit("extract_codes_checked")
